@@ -266,6 +266,7 @@ def jacobian_rule(target, joint, raws, args, jac_terms):
     def X(u):
         set_u(u)
         return torch.cat([th().reshape(-1) for _, th in args])
+    jacobian_rule.noprior = []
     if any(th is None for _, th in args):
         return None, None, "a prior component without a recognisable argument: " + ", ".join(l for l, th in args if th is None)
     J = torch.autograd.functional.jacobian(X, u0)
@@ -298,6 +299,13 @@ def jacobian_rule(target, joint, raws, args, jac_terms):
     for r in range(len(free) + 1):
         for sub in itertools.combinations(free, r):
             wants.append(float(logdet) + sum(v for _, v in sub))
+    # which raw parameters the prior-less coordinates belong to
+    owners, o = [], 0
+    for r, n in zip(raws, sizes):
+        if any(j in unused for j in range(o, o + n)):
+            owners.append(str(r.id))
+        o += n
+    jacobian_rule.noprior = owners
     return got, wants, (f"{len(unused)} raw coordinates carry no prior; optional terms {[t for t, _ in free]}" if unused else "")
 
 
@@ -363,11 +371,27 @@ def run_config(opts, workdir) -> Result:
                 jt = [(str(m.id), m) for m in target._distributions.callables() if m is not joint]
             got, wants, note = jacobian_rule(target, joint, raws, prior_arguments(dic, dic["prior"] if "prior" in dic else joint), jt)
             r.info["jacobian"] = (got, wants[:4] if wants else wants, note)
+            r.info["noprior"] = list(getattr(jacobian_rule, "noprior", []))
             if got is None:
                 r.info["jacobian_undecided"] = note
             elif not any(abs(got - w) <= 1e-7 * max(1.0, abs(w)) for w in wants):
                 r.problems.append(("jacobian", f"target - constrained joint = {got:.10g}, log|det d(prior arguments)/d(raw)| = {wants[0]:.10g}"
                                    + (f" (+ optional terms: {note})" if len(wants) > 1 else "")))
+            else:
+                # ... and at a second point: several log-Jacobians vanish at the default initial values (log 1)
+                gen = torch.Generator().manual_seed(12345)
+                saved = [p.tensor.detach().clone() for p in raws]
+                for p in raws:
+                    p.tensor = p.tensor.detach() + 0.1 * torch.randn(p.tensor.shape, generator=gen, dtype=p.tensor.dtype)
+                try:
+                    got2, wants2, note2 = jacobian_rule(target, joint, raws, prior_arguments(dic, dic["prior"] if "prior" in dic else joint), jt)
+                    if got2 is not None and math.isfinite(got2) and not any(abs(got2 - w) <= 1e-7 * max(1.0, abs(w)) for w in wants2):
+                        r.problems.append(("jacobian", f"away from the initial point: target - constrained joint = {got2:.10g}, "
+                                           f"log|det d(prior arguments)/d(raw)| = {wants2[0]:.10g}"))
+                    r.info["jacobian_second_point"] = got2 is not None
+                finally:
+                    for p, t0 in zip(raws, saved):
+                        p.tensor = t0
         except Exception as e:
             r.info["jacobian_undecided"] = f"{type(e).__name__}: {str(e)[:100]}"
         r.dic = dic
